@@ -550,8 +550,13 @@ static void ProcessEvent(lp_id_t me, simtime_t now, unsigned ty, const void *pl,
 		    st ? (int)st->s : -1, st ? (int)st->cnt : -1, dg.a, dg.b, pred_of(st, me), contract_bad);
 		return;
 	}
-	if(!st || ty < 1 || ty > (unsigned)M.T)
-		die("model received an impossible event");
+	if(!st || ty < 1 || ty > (unsigned)M.T || me >= (lp_id_t)M.nlps) {
+		/* the runtime handed the model something that no LP ever scheduled: reported as an observation (the validation decides which
+		 * property it breaks), then the run is abandoned - the model cannot continue from a state it does not have */
+		EMIT("\"e\":\"BadDispatch\",\"lp\":%ld,\"ty\":%u,\"sz\":%u,\"silent\":%d,\"nostate\":%d", (long)me, ty, sz, in_restore, st == NULL);
+		fflush(out);
+		_exit(0);
+	}
 
 	int pid = pid_of(pl, sz);
 	const struct trans *e = &M.tr[st->s][ty];
@@ -792,6 +797,11 @@ int rank_run(int threads, int ckpt, unsigned gvt_period, double term_time, const
 	return RootsimRun();
 }
 #endif /* TW_RANK_PART */
+
+#ifdef TW_SHARED_PART
+/* identity of a message buffer as used in the trace (for the fake MPI, which sees the buffers handed to MPI_Isend) */
+long tw_mid_of(const void *p) { return mid_of(p); }
+#endif
 
 #ifdef TW_SHARED_PART
 /* ------------------------------------------------------------------ virtual clock */
